@@ -696,6 +696,14 @@ func (f *LogFile) execSeriesEntry(e *LogEntry) {
 	//
 	// https://github.com/influxdata/influxdb/issues/9444
 	if seriesKey == nil {
+		// The key is also gone once the series file has been compacted after
+		// the series was dropped. A tombstone must still take the id out of
+		// the sets: an older index file may list the series, and the sets of
+		// all files together decide whether it exists.
+		if e.Flag == LogEntrySeriesTombstoneFlag {
+			f.seriesIDSet.Remove(e.SeriesID)
+			f.tombstoneSeriesIDSet.Add(e.SeriesID)
+		}
 		return
 	}
 
